@@ -44,6 +44,10 @@ func (propC04) Gen(r *Rng, run uint64, tier string) *Plan {
 		spec.NMin, spec.NMax, spec.RecMax = 25, 70, 4
 	case x < 8:
 		spec.NMin, spec.NMax, spec.RecMax = 100, 140, 2
+		if r.Bool(0.4) {
+			// more sources than fit an 8-bit index
+			spec.NMin, spec.NMax = 257, 300
+		}
 	case x < 12:
 		// long logs, deep heap refills
 		spec.RecMax, spec.Hi = 150, BaseNs+120*sec
